@@ -205,6 +205,7 @@ def register_order(reg):
     def step_apply(eng, st, argmap, node):
         st.ghost["unary_step_suffix"] = argmap.get("suffix")
         st.ghost["unary_step_terms"] = argmap.get("terms")
+        st.ghost["unary_step_ops_key"] = argmap.get("ops_key")
         return [(st, VScalar(z3.Const(fresh_name("near_sql"), eng.S.sort("NearSQL")), NEAR))]
 
     reg.add(Contract(key="data_algebra.near_sql.NearSQLUnaryStep", params={}, assumed=True, apply=step_apply,
@@ -237,6 +238,7 @@ def register_order(reg):
         str_of = S.func("str_of_Int", z3.IntSort(), S.Atom)
         limit_text = cat(S.str_const("LIMIT "), str_of(lim.val.z))
         n_order = (arg.n + 1) if arg is not None else z3.IntVal(0)
+        out.append(("the-CTE-sharing-key-identifies-the-node (with its sources), not just the step", ops_key_identifies_node(c, node)))
         out.append(("LIMIT-clause-present-exactly-when-a-limit-is-set (also limit=0)",
                     z3.If(lim.is_none, sl.n == n_order, z3.And(sl.n == n_order + 1, sl.arr[sl.n - 1] == limit_text))))
         return out
@@ -303,6 +305,7 @@ def register_project_sql(reg):
             out.append(("GROUP-BY-terms-are-ALL-the-quoted-group-keys-in-order-whatever-later-steps-use",
                         z3.And(arg.n == gb.n, gb.n > 0, z3.ForAll([i], z3.Implies(z3.And(0 <= i, i < gb.n), arg.arr[i] == quote(S)(gb.arr[i]))))))
             out.append(("suffix-is-GROUP-BY-followed-by-one-line-per-key", z3.And(sl.n == arg.n + 1, sl.arr[0] == S.str_const("GROUP BY"))))
+        out.append(("the-CTE-sharing-key-identifies-the-node (with its sources), not just the step", ops_key_identifies_node(c, node)))
         terms = c.st.ghost.get("unary_step_terms")
         if isinstance(terms, VDict):
             g = z3.Const("grp_g", S.Atom)
@@ -497,6 +500,22 @@ def register_extend_terms_sql(reg):
                      entry_assume=lambda c: [c.eng.as_atom(c.window_term, c.st, None) != c.S.NONE]))
 
 
+def ops_key_identifies_node(c, node):
+    """the key under which CTE elimination may share this step's query is an injective function of THE NODE ITSELF (printed with its sources):
+    it is an f-string one of whose pieces is the node object (f-strings are injective in their pieces); a key built from less -- e.g. from the
+    step's own annotation, which does not mention the sources -- would let two different sub-pipelines share one CTE"""
+    import z3
+    key = c.st.ghost.get("unary_step_ops_key")
+    if key is None or not hasattr(key, "z"):
+        return z3.BoolVal(False)
+    alts = []
+    for (res, pieces) in c.st.ghost.get("fstring_log", []):
+        same_sort = [p for p in pieces if p.sort() == node.z.sort()]
+        if same_sort:
+            alts.append(z3.And(res == key.z, z3.Or(*[p == node.z for p in same_sort])))
+    return z3.Or(*alts) if alts else z3.BoolVal(False)
+
+
 # ====================================================================== C08/C01: SQLModel.select_rows_to_near_sql (selected terms and WHERE text)
 def register_select_rows_sql(reg):
     import z3
@@ -542,6 +561,7 @@ def register_select_rows_sql(reg):
             want = eng.list_mem(c.field(node, "column_names"), st)
         else:
             want = eng.set_of(c.using, st, None).arr
+        out.append(("the-CTE-sharing-key-identifies-the-node (with its sources), not just the step", ops_key_identifies_node(c, node)))
         out.append(("selected-terms-are-exactly-the-requested-columns (all of the step's columns by default), each passed through unchanged",
                     z3.ForAll([k], z3.And(terms.dom[k] == want[k], z3.Implies(terms.dom[k], terms.val[k] == S.NONE)))))
         return out
@@ -654,7 +674,8 @@ def register_map_sql(reg):
         j = z3.Const("mp_j", S.Atom)
         is_new = lambda x: z3.Exists([j], z3.And(rm.dom[j], rm.val[j] == x))
         touched = lambda x: z3.Or(rm.dom[x], is_new(x), dels[x])
-        return [("every-mapped-column-is-selected-as-new-name = quoted old name", z3.ForAll([k], z3.Implies(rm.dom[k], z3.And(terms.dom[rm.val[k]], terms.val[rm.val[k]] == quote(S)(k))))),
+        return [("the-CTE-sharing-key-identifies-the-node (with its sources), not just the step", ops_key_identifies_node(c, node)),
+                ("every-mapped-column-is-selected-as-new-name = quoted old name", z3.ForAll([k], z3.Implies(rm.dom[k], z3.And(terms.dom[rm.val[k]], terms.val[rm.val[k]] == quote(S)(k))))),
                 ("every-other-term-is-a-requested-source-column-that-the-mapping-neither-renames-nor-deletes, passed through unchanged",
                  z3.ForAll([k], z3.Implies(z3.And(terms.dom[k], z3.Not(is_new(k))), z3.And(sub[k], z3.Not(touched(k)), terms.val[k] == S.NONE)))),
                 ("no-requested-untouched-source-column-is-lost-and-no-deleted-column-survives", z3.ForAll([k], z3.And(z3.Implies(z3.And(sub[k], z3.Not(touched(k))), terms.dom[k]),
@@ -705,7 +726,8 @@ def register_rename_sql(reg):
         old_names = z3.Const("rn_old_names", z3.ArraySort(S.Atom, z3.BoolSort()))  # the set of remapping VALUES
         j = z3.Const("rn_j", S.Atom)
         is_old = lambda x: z3.Exists([j], z3.And(rm.dom[j], rm.val[j] == x))
-        return [("every-renamed-column-is-selected-as-new-name = quoted old name", z3.ForAll([k], z3.Implies(rm.dom[k], z3.And(terms.dom[k], terms.val[k] == quote(S)(rm.val[k]))))),
+        return [("the-CTE-sharing-key-identifies-the-node (with its sources), not just the step", ops_key_identifies_node(c, node)),
+                ("every-renamed-column-is-selected-as-new-name = quoted old name", z3.ForAll([k], z3.Implies(rm.dom[k], z3.And(terms.dom[k], terms.val[k] == quote(S)(rm.val[k]))))),
                 ("every-other-term-is-a-requested-source-column-that-the-renaming-does-not-touch, passed through unchanged",
                  z3.ForAll([k], z3.Implies(z3.And(terms.dom[k], z3.Not(rm.dom[k])), z3.And(sub[k], z3.Not(is_old(k)), terms.val[k] == S.NONE)))),
                 ("no-requested-untouched-source-column-is-lost", z3.ForAll([k], z3.Implies(z3.And(sub[k], z3.Not(rm.dom[k]), z3.Not(is_old(k))), terms.dom[k])))]
